@@ -859,3 +859,64 @@ def c41_monitors(obs, case=None, stream="sig_monitor", signal="sig"):
     if obs.state == "idle" and getattr(obs.devices.get(signal), "subs", None):
         tags.append("monitor-subscription-left-on-device-at-idle")
     return sorted(set(tags))
+
+
+# ------------------------------------------------------------------------------------------------ trace spans (C42)
+class RecSpan:
+    def __init__(self, name, log):
+        self.name, self.attrs, self.ended = name, {}, 0
+        log.append(self)
+
+    def set_attribute(self, k, v):
+        self.attrs[k] = v
+
+    def end(self, *a, **k):
+        self.ended += 1
+
+    def is_recording(self):
+        return True
+
+
+def install_tracer(lab):
+    """Bind a recording tracer as bluesky.run_engine.tracer for this lab (restored by lab.close via lab.cleanups)."""
+    import bluesky.run_engine as rem
+
+    lab.spans = []
+    saved = rem.tracer
+
+    class T:
+        def start_span(self, name, *a, **k):
+            return RecSpan(name, lab.spans)
+
+    rem.tracer = T()
+    lab.cleanups = getattr(lab, "cleanups", []) + [lambda: setattr(rem, "tracer", saved)]
+
+
+def c42_spans(obs, case=None):
+    tags = []
+    if obs.stuck or obs.state != "idle":
+        return tags
+    spans = [s for s in obs.lab.spans if s.name.endswith(" run")]
+    if obs.followup is not None and spans:
+        spans = spans[:-1]  # the follow-up run's span
+    starts = [d for n, d in obs.docs if n == "start"]
+    stops = {d["run_start"]: d for n, d in obs.docs if n == "stop"}
+    nopen_msgs = sum(1 for m in obs.msgs if m.command == "open_run")
+    if len(spans) < len(starts):
+        tags.append("opened-run-without-a-span")
+    # spans are created in open_run order; an open_run that failed before emitting its start has a span but no run
+    if len(spans) != len(starts):
+        return sorted(set(tags)) if len(spans) < len(starts) else sorted(set(tags))
+    for sp, st in zip(spans, starts):
+        stop = stops.get(st["uid"])
+        if stop is None:
+            continue
+        if sp.ended == 0:
+            tags.append("span-of-a-closed-run-never-ended")
+        elif sp.ended > 1:
+            tags.append("span-ended-more-than-once")
+        es = sp.attrs.get("exit_status")
+        want = stop.get("exit_status")
+        if sp.ended and es != want and not (want == "abort" and es == "aborted"):
+            tags.append("span-exit-status-differs-from-the-run's-RunStop")
+    return sorted(set(tags))
